@@ -2000,7 +2000,7 @@ class RecordTensor(ShapedTensor):
             indices = _unwind_tensor_ptr(ptr, offset, recordsz)
 
             # reshape observations for compatibility
-            obs = ein.rearrange(obs, "... t -> t ...")
+            obs = ein.rearrange(obs, "... t -> t ...").to(dtype=data.dtype)
 
             # write to storage
             if inplace:
